@@ -130,7 +130,7 @@ def concretise(run, abstract, stores, configs, unit, rng, label, probe_every=1):
             for (cap, maxkb) in configs(i, st):
                 names = sets[(i + len(out)) % len(sets)]
                 out.append({"id": "%s-%d-%s-c%dk%d" % (label, i, st, cap, maxkb), "store": st, "cap": cap, "maxkb": maxkb,
-                            "names": names, "ops": with_probes(ops, unit, probe_every)})
+                            "names": names, "ops": with_probes(ops, unit(i) if callable(unit) else unit, probe_every)})
     return out
 
 
@@ -212,13 +212,15 @@ def c08(run, args):
         # quick: two configurations per behaviour and store, rotating so that all are covered; thorough: all
         return rotating(i, st) if quick else (mem_cfgs if st == "mem" else file_cfgs)
 
-    beh = concretise(run, bfs, ["mem", "file"], cfgs_for, 300, rng, "bfs")
-    beh += concretise(run, bfs5, ["mem", "file"], rotating, 300, rng, "bfs5")
+    # size unit 300 bytes, for every third sequence 400: a 1200-byte message is larger than the whole 1 KiB limit (it cannot stay)
+    unit = lambda i: 400 if (i // 4 + run.seed) % 3 == 0 else 300      # (i // 4: not in step with the rotation of the configurations)
+    beh = concretise(run, bfs, ["mem", "file"], cfgs_for, unit, rng, "bfs")
+    beh += concretise(run, bfs5, ["mem", "file"], rotating, unit, rng, "bfs5")
     beh += concretise(run, sim, ["mem", "file"], (lambda i, st: (mem_cfgs if st == "mem" else file_cfgs)) if quick else (lambda i, st: rotating(i, st, 4)),
                       300, rng, "sim", probe_every=10)
     run.cov["samples"] = [bfs[len(bfs) // 3], sim[0][:12]] if bfs and sim else []
     replay_and_validate(run, vh, beh, "c08", "C08 cap/size-limit eviction")
-    run.cov["rule"] = ("TLC enumerates every add/remove/purge sequence (sizes 300/600/900 bytes, 2 mailboxes) up to the stated depth and simulates long "
+    run.cov["rule"] = ("TLC enumerates every add/remove/purge sequence (sizes 300/600/900 bytes, for a third of the sequences 400/800/1200 - a message larger than the whole 1 KiB limit; 2 mailboxes) up to the stated depth and simulates long "
                        "histories (drift); each runs on the memory store under cap x maxkb in {0,1,2,3} x {0,1,2 KiB} and on the file store under each cap; "
                        "after every operation the whole store must equal the contract state (most recent messages kept, globally oldest-first size eviction, "
                        "only as much as necessary, new message retrievable).  non-trivial/distinct as in C07")
@@ -538,6 +540,18 @@ def c09(run, args):
                      for j in range(4 + k % 2)]
             behaviours.append({"id": "first-%d-%s-c%dk%d" % (k, st, cap, maxkb), "store": st, "cap": cap, "maxkb": maxkb, "names": sets[k % len(sets)],
                                "pre": [p_ for p_ in pre if p_["mb"] == 0], "threads": fresh, "repeat": 60})
+        # neighbours: two mailboxes in ONE first-level hash directory of the file store (same lock bucket), each emptied and refilled
+        # over and over by its own client: the shared parent directory is removed with the last mailbox in it and re-made by the next
+        # delivery (nothing else keeps it alive: only these two mailboxes exist)
+        for k in range(4 if quick else 16):
+            pair = bucket_pair(3, rng)
+            st = "file" if k % 4 else "mem"
+            cyc = 4 + k % 3
+            behaviours.append({"id": "nbr-%d-%s" % (k, st), "store": st, "cap": 0, "maxkb": 0, "names": pair + ["unused"],
+                               "pre": [{"op": "add", "mb": 0, "meta": 1, "size": 600}],
+                               "threads": [[{"op": o, "mb": 0, "meta": 1, "size": 600} for _ in range(cyc) for o in ("purge", "add")],
+                                           [{"op": o, "mb": 1, "meta": 1, "size": 600} for _ in range(cyc) for o in ("add", "purge")]],
+                               "repeat": 150 if quick else 400})
         # bursts: 8 deliveries at once to a mailbox that does not exist yet, many times (judged on the outcome, no search needed)
         for k in range(4):
             st = ["mem", "file"][k % 2]
